@@ -191,18 +191,17 @@ def compareModel (c : Case) (withRanges : Bool) : Verdict :=
       else .ok   -- timeout: reported by the Spec side
     else
       let isWrapper := c.ep != "file"
-      -- ParseKey/ParseMapKey/ParseValue return no tree next to errors, so the number oracle cannot be read off the
-      -- observation there: the one message that depends on it is compared modulo number/unquoted string
-      let strip := fun (j : Json) =>
-        let j := if withRanges then j else stripRanges j
-        if isWrapper then normNumberMsg j else j
+      -- the number oracle is read off the Number nodes of the returned tree; a number inside a node the parser
+      -- dropped (a value after an empty key, anything next to errors in ParseKey/ParseMapKey/ParseValue) is not
+      -- there, so the one message that depends on it is compared modulo number/unquoted string
+      let strip := fun (j : Json) => normNumberMsg (if withRanges then j else stripRanges j)
       let goErrs := strip ((c.out.getObjVal? "errs").toOption.getD (.arr #[]))
       let mErrs := m.errs
       -- the wrappers return no tree when there were errors, and a single "empty" error for a nil result
       let mErrsJ : Json :=
         if isWrapper && mErrs.isEmpty && m.ast.isNone then .arr #[Json.mkObj ((if withRanges then [("r", Json.str "")] else []) ++ [("m", Json.str "empty")])]
         else errsToJson withRanges mErrs
-      match firstDiff "errs" (if isWrapper then normNumberMsg mErrsJ else mErrsJ) goErrs with
+      match firstDiff "errs" (normNumberMsg mErrsJ) goErrs with
       | some d => .mismatch "errors" s!"{d} ep={c.ep} u16={c.u16} src={srcHex}"
       | none =>
         if isWrapper && !mErrs.isEmpty then .ok
